@@ -3,7 +3,7 @@ import os
 
 import numpy as np
 
-from build import BOOL, DICT, DT, EN, F, I, L, NOJ, NP, R, S, SETUP, Prog
+from build import BOOL, DICT, DT, EN, F, I, L, NOJ, NP, R, S, SETUP, SHARED, Prog
 from objgen import ENUM_MEMBERS, ORDER, add_all_classes, ident, make_kwargs, text, value_for, with_units
 from objmodel import CLASSES
 from scen import DTYPES, rand_array, rand_name, rng_for, simple_file
@@ -94,6 +94,37 @@ def gen_C03(tier, seed):
         p.write(1, route='none' if route == 'inline' else route, data_arrays=arrs, fname='first.dlis')
         p.write(1, route='none' if route == 'inline' else route, data_arrays=arrs, fname='second.dlis', in_chunk=2)
         progs.append(p.build())
+    # every special bit pattern in every position: signalling / quiet NaNs with payloads, infinities, signed zeros, denormals,
+    # extremes - as scalar channels, as 2-D channels of width 1 and 3, both byte orders, every route
+    pat32 = ['7fa00001', '7f800001', 'ffa00000', '7fc00000', '7fc12345', 'ffc00001', '7f800000', 'ff800000', '00000000', '80000000',
+             '00000001', '807fffff', '7f7fffff', '3dcccccd']
+    pat64 = ['7ff4000000000001', '7ff0000000000001', 'fff4000000000000', '7ff8000000000000', '7ff8000000012345', '7ff0000000000000',
+             'fff0000000000000', '0000000000000000', '8000000000000000', '0000000000000001', '800fffffffffffff', '7fefffffffffffff',
+             '3fb999999999999a', 'fff8000000000001']
+    k = 0
+    for order in ('<', '>'):
+        for route in ('inline', 'dict', 'struct', 'h5'):
+            if tier == 'quick' and (order, route) not in (('<', 'inline'), ('>', 'dict'), ('<', 'struct'), ('>', 'h5')):
+                continue
+            k += 1
+            p = Prog(f'C03-bitpatterns-{k}', {'kind': 'bitpatterns', 'order': order, 'route': route})
+            lf, _ = base_lf(p, vrl=[128, 8192][k % 2])
+            a32 = np.frombuffer(bytes.fromhex(''.join(pat32)), dtype='>f4').astype(np.dtype('f4').newbyteorder(order))
+            a64 = np.frombuffer(bytes.fromhex(''.join(pat64)), dtype='>f8').astype(np.dtype('f8').newbyteorder(order))
+            assert a32.astype('>f4').tobytes().hex() == ''.join(pat32) and a64.astype('>f8').tobytes().hex() == ''.join(pat64)
+            data = [('S32', a32), ('S64', a64), ('W32', a32.reshape(-1, 1)), ('W64', a64.reshape(-1, 1)),
+                    ('M32', np.stack([a32, a32[::-1], a32], axis=1)), ('M64', np.stack([a64[::-1], a64], axis=1))]
+            chans, arrs = [], {}
+            for nm, arr in data:
+                if route == 'inline':
+                    chans.append(p.channel(lf, nm, data=arr))
+                else:
+                    c = p.channel(lf, nm)
+                    arrs[c] = p.array(arr)
+                    chans.append(c)
+            p.frame(lf, 'FR', chans)
+            p.write(1, route='none' if route == 'inline' else route, data_arrays=arrs, in_chunk=[None, 3][k % 2])
+            progs.append(p.build())
     # the dtype a channel is written with: derived from the data of each write unless the user pinned one (before the
     # first write, between two writes -- also to the very dtype derived before -- or cleared it again)
     dts = ['float32', 'float64', 'int16', 'uint8', 'int32']
@@ -249,6 +280,20 @@ def gen_C08(tier, seed):
         q.frame(lf, 'F2', [d2])
         q.write(1, route='dict', data_arrays={d1: aid, d2: aid})
         progs.append(q.build())
+    # one frame listing two channels of one name (copy numbers 0 and 1, different shapes and dtypes), or the same channel twice:
+    # refused, or every record is as long as the descriptors say
+    for v in range(4):
+        p = Prog(f'C08-dupchannel-{v}', {'kind': 'dupchannel', 'fringe': True})
+        lf, _ = base_lf(p)
+        d = p.channel(lf, 'DEPTH', data=np.arange(4, dtype='float64'))
+        a1 = p.channel(lf, 'AMP', data=rand_array(rng, 'float32', 4, 3))
+        if v < 2:
+            a2 = p.channel(lf, 'AMP', data=rand_array(rng, 'uint16', 4, 2), set_name=None if v == 0 else 'OTHER')
+            p.frame(lf, 'MAIN', [d, a1, a2])
+        else:
+            p.frame(lf, 'MAIN', [d, a1, a1] if v == 2 else [a1, d, a1, d])
+        p.write(1, valid=False, either=True)
+        progs.append(p.build())
     return progs
 
 
@@ -449,6 +494,22 @@ def gen_C05(tier, seed):
         p.frame(lf, 'FR', [c])
         p.write(1)
         progs.append(p.build())
+    # one {'value': .., 'units': ..} dict (the very same object) handed to several attributes, objects and calls
+    for i in range(3):
+        p = Prog(f'C05-shareddict-{i}', {'kind': 'shareddict'})
+        lf, o = base_lf(p)
+        c = p.channel(lf, 'CH', data=np.arange(3, dtype='float64'))
+        p.frame(lf, 'FR', [c])
+        depth = lambda: SHARED('depth', F(1234.5), S('m'))
+        size = lambda: SHARED('size', I(7), S('in'))
+        e1 = p.add(lf, 'equipment', 'EQ1', vertical_depth=depth(), length=size(), **({'height': depth()} if i else {}))
+        e2 = p.add(lf, 'equipment', 'EQ2', vertical_depth=depth(), length=size())
+        p.add(lf, 'path', 'PATH', vertical_depth=depth(), time=SHARED('t', F(2.5), S('s')), depth_offset=SHARED('t', F(2.5), S('s')))
+        if i == 2:
+            p.write(1, fname='first.dlis')
+            p.add(lf, 'equipment', 'EQ3', vertical_depth=depth(), weight=size())
+        p.write(1)
+        progs.append(p.build())
     # FRAME ENCRYPTED takes booleans, 0/1 numbers and yes/no words
     for i, v in enumerate([BOOL(True), BOOL(False), I(1), F(0.0), NOJ(S('yes')), NOJ(S('F')), NOJ(S('maybe')), NOJ(I(2))]):
         p = Prog(f'C05-encrypted-{i}', {'kind': 'encrypted'})
@@ -577,13 +638,51 @@ def gen_C07(tier, seed):
         p.frame(lf, 'FR', [c])
         p.write(1, valid=False, either=True)
         progs.append(p.build())
+    # references after the target was renamed or moved to another origin between two writes (OBNAME and OBJREF links)
+    for i in range(6 if tier == 'quick' else 24):
+        p = Prog(f'C07-retarget-{i}', {'kind': 'retarget'})
+        lf, o = base_lf(p)
+        p.origin(lf, name='SECOND', fsn=2, origin_reference=9)
+        a = p.channel(lf, 'A', data=np.arange(3, dtype='float64'))
+        b = p.channel(lf, 'B', data=np.arange(3, dtype='float64') + 1)
+        fr = p.frame(lf, 'FR', [a, b])
+        z = p.add(lf, 'zone', 'Z')
+        tl = p.add(lf, 'tool', 'TOOL', channels=L(R(a)))
+        p.set(b, 'source', R(a) if i % 2 else R(tl))
+        p.add(lf, 'group', 'G', object_list=L(R(a), R(z), R(tl)))
+        p.add(lf, 'computation', 'COMP', source=R(a) if i % 2 == 0 else R(tl), zones=L(R(z)), values=L(F(1.0)))
+        p.add(lf, 'parameter', 'PAR', zones=L(R(z)), values=L(F(2.0)))
+        p.add(lf, 'calibration_measurement', 'CM', measurement_source=R(a))
+        p.write(1, fname='first.dlis')
+        what = ['origin-channel', 'origin-zone', 'origin-tool', 'rename-channel', 'rename-tool', 'both'][i % 6]
+        if what in ('origin-channel', 'both'):
+            p.set_origin_ref(a, 9)
+        if what == 'origin-zone':
+            p.set_origin_ref(z, 9)
+        if what in ('origin-tool', 'both'):
+            p.set_origin_ref(tl, 9)
+        if what in ('rename-channel', 'both'):
+            p.rename(a, 'A-RENAMED')
+        if what == 'rename-tool':
+            p.rename(tl, 'TOOL-RENAMED')
+        p.write(1, fname='second.dlis')
+        p.set_origin_ref(a, 9 if what not in ('origin-channel', 'both') else None) if False else None
+        progs.append(p.build())
+    progs += foreign_reference_programs('C07')
+    return progs
+
+
+def foreign_reference_programs(pid):
+    progs = []
     # a reference to an object of another logical file cannot resolve within the logical file: rejected, or not written so
     foreign = [('frame', 'channels', 'channel'), ('tool', 'channels', 'channel'), ('parameter', 'zones', 'zone'),
                ('channel', 'axis', 'axis'), ('calibration', 'calibrated_channels', 'channel'), ('group', 'object_list', 'zone'),
                ('process', 'input_channels', 'channel'), ('splice', 'output_channel', 'channel'), ('path', 'frame_type', 'frame'),
-               ('tool', 'parts', 'equipment'), ('computation', 'source', 'tool'), ('calibration', 'coefficients', 'calibration_coefficient')]
+               ('tool', 'parts', 'equipment'), ('computation', 'source', 'tool'), ('calibration', 'coefficients', 'calibration_coefficient'),
+               ('channel', 'source', 'tool'), ('calibration_measurement', 'measurement_source', 'channel'), ('channel', 'long_name', 'long_name'),
+               ('parameter', 'long_name', 'long_name')]
     for i, (cls, attr, tcls) in enumerate(foreign):
-        p = Prog(f'C07-foreign-{i}', {'kind': 'foreign', 'fringe': True, 'cls': cls, 'attr': attr})
+        p = Prog(f'{pid}-foreign-{i}', {'kind': 'foreign', 'fringe': True, 'cls': cls, 'attr': attr})
         p.file(1)
         lfs = []
         for n in (1, 2):
@@ -600,7 +699,7 @@ def gen_C07(tier, seed):
             tgt = f2
         else:
             tgt = p.add(l2, tcls, 'TARGET', set_name=s2)
-        single = attr in ('output_channel', 'frame_type', 'source')
+        single = attr in ('output_channel', 'frame_type', 'source', 'measurement_source', 'long_name')
         val = R(tgt) if single else L(R(tgt))
         if cls == 'frame':
             extra = p.channel(l1, 'EXTRA', data=np.arange(3, dtype='float64'), set_name=s1)
@@ -728,6 +827,33 @@ def gen_C11(tier, seed):
                 p.write(fid, route='none' if route in ('inline', 'presliced') else route, data_arrays=arrs, extras=extras,
                         perm=perm, fname=f'out{fid}.dlis', **opts)
             progs.append(p.build())
+    # two windows of the same DLISFile one after the other (evenly / unevenly spaced index): each file is the one written from
+    # the pre-sliced arrays
+    depth = np.array([10, 11, 12, 13, 14, 15, 17, 20, 24, 29, 35, 42], dtype='float64')
+    for i in range(4 if tier == 'quick' else 16):
+        p = Prog(f'C11-twowindows-{i}', {'kind': 'twowindows'})
+        oth = rand_array(rng, 'int16', 12)
+        wins = [(0, 6), (6, 12)] if i % 2 == 0 else [(6, 12), (0, 6)]
+        route = ['dict', 'struct', 'h5', 'dict'][i % 4]
+
+        def spec(fid, inline=None):
+            p.file(fid, vrl=256)
+            lf = p.lf(fid, lf=fid, fh_id='WINDOWS')
+            p.origin(lf, name='O')
+            if inline is None:
+                ix, ot = p.channel(lf, 'INDEX'), p.channel(lf, 'OTHER')
+            else:
+                ix, ot = p.channel(lf, 'INDEX', data=inline[0]), p.channel(lf, 'OTHER', data=inline[1])
+            p.frame(lf, 'FR', [ix, ot], index_type=EN('FrameIndexType', 'BOREHOLE_DEPTH'))
+            return ix, ot
+        ix, ot = spec(1)
+        arrs = {ix: p.array(depth), ot: p.array(oth)}
+        for j, (a_, b_) in enumerate(wins):
+            p.write(1, route=route, data_arrays=arrs, fname=f'w{j}.dlis', in_chunk=[None, 4][i // 2 % 2], **{'from': a_, 'to': b_})
+        for j, (a_, b_) in enumerate(wins):
+            spec(10 + j, inline=(depth[a_:b_].copy(), oth[a_:b_].copy()))
+            p.write(10 + j, fname=f'sliced{j}.dlis')
+        progs.append(p.build())
     # a cast given at creation and changed (or cleared) before the write: inline data and write-time data are cast once, to
     # the dtype in force at the write
     casts = [('float64', 'float32', 'float64'), ('float64', 'float32', None), ('int32', 'uint8', 'int32'), ('int32', 'uint8', None),
@@ -828,6 +954,45 @@ def gen_C13(tier, seed):
                         opts = {'from': 1, 'to': len(s)}
                     p.write(1, **opts)
                     progs.append(p.build())
+    # index values and differences beyond 2^31 (int32 / uint32 / float64 holding integers): the exact statistics are judged
+    # on their IEEE images
+    wides = [('int32', [-2000000000, 500000000]), ('int32', [2000000000, -2000000000]), ('int32', [-2147483648, 0, 2147483647]),
+             ('int32', [-2000000000, 100, 2000000000]), ('int32', [2147483647, 2147483646, -2147483648]),
+             ('uint32', [0, 4000000000]), ('uint32', [4000000000, 3000000000, 2000000000]), ('uint32', [4294967295, 0]),
+             ('float64', [-3000000000.0, 0.0, 3000000000.0]), ('float64', [0.0, 4000000000.0, 4000000001.0]),
+             ('int32', [1048576, 2097152, 3145728]), ('int16', [-32768, 32767])]
+    for i, (dt, seq) in enumerate(wides):
+        p = Prog(f'C13-wide-{i}', {'kind': 'wide', 'dtype': dt, 'seq': seq})
+        lf, _ = base_lf(p)
+        idx = p.channel(lf, 'INDEX', data=np.array(seq, dtype=dt))
+        oth = p.channel(lf, 'OTHER', data=rand_array(rng, 'float32', len(seq)))
+        p.frame(lf, 'FR', [idx, oth], index_type=EN('FrameIndexType', 'BOREHOLE_DEPTH'))
+        p.write(1)
+        if len(seq) > 2:
+            p.write(1, fname='window.dlis', **{'from': 1, 'to': len(seq)})
+        progs.append(p.build())
+    # the same frame written for an evenly spaced window, then an unevenly spaced one (and the other way round): SPACING and
+    # DIRECTION are those of the rows written, never those of the write before
+    depth = np.array([10, 11, 12, 13, 14, 15, 17, 20, 24, 29, 35, 42], dtype='float64')
+    for i in range(4 if tier == 'quick' else 16):
+        p = Prog(f'C13-evenuneven-{i}', {'kind': 'evenuneven'})
+        lf, _ = base_lf(p)
+        d = depth if i % 4 < 2 else depth[::-1].copy()
+        route = ['inline', 'dict'][i // 2 % 2] if tier == 'quick' else ['inline', 'dict', 'struct', 'h5'][(i // 4) % 4]
+        oth = rand_array(rng, 'int16', 12)
+        if route == 'inline':
+            idx = p.channel(lf, 'INDEX', data=d)
+            o2 = p.channel(lf, 'OTHER', data=oth)
+            arrs = {}
+        else:
+            idx = p.channel(lf, 'INDEX')
+            o2 = p.channel(lf, 'OTHER')
+            arrs = {idx: p.array(d), o2: p.array(oth)}
+        p.frame(lf, 'FR', [idx, o2], index_type=EN('FrameIndexType', 'BOREHOLE_DEPTH'))
+        wins = [(0, 6), (6, 12)] if i % 2 == 0 else [(6, 12), (0, 6)]
+        for j, (a_, b_) in enumerate(wins + [wins[0]]):
+            p.write(1, route='none' if route == 'inline' else route, data_arrays=arrs, fname=f'w{j}.dlis', **{'from': a_, 'to': b_})
+        progs.append(p.build())
     # sequences of writes of the same specification with different data / windows
     for i in range(8 if tier == 'quick' else 60):
         p = Prog(f'C13-rewrite-{i}', {'kind': 'rewrite'})
@@ -998,6 +1163,7 @@ def gen_C18(tier, seed):
                 p.frame(lf, f'FRAME-{f}', [d, r], set_name=sn, origin_reference=ref)
         p.write(1, in_chunk=[None, 2][i % 2])
         progs.append(p.build())
+    progs += foreign_reference_programs('C18')
     return progs
 
 
